@@ -328,7 +328,7 @@ PROPERTIES = {
                             "inspect.BoundArguments.args/.kwargs (how a binding is turned into a call) are CPython's (modelled as two attributes of the binding object)",
                             "attr_method / event_method adapters (dispatcher.py) and Event.__call__'s stripping of reserved names are not under contract: "
                             "covered by the bounded end-to-end layer only"]},
-    "C08": {"bounded": [expr_layer()],
+    "C08": {"bounded": [expr_layer(), render_layer(quick_s=8, thorough_s=60)],  # cond/unless must survive every declaration style (from_.any() copies)
             "assumptions": [
                 "operands of guard expressions are read without side effects (OperandCall oracle)",
                 "build_expression / parse_boolean_expr (AST walk) and Listeners.build are not under contract yet: the AST->closure mapping is covered by the bounded lexical layer only; the five combinator closures, the guard conjunction (all/async_all, expected_value) and CallbacksRegistry.check are proved",
